@@ -663,12 +663,29 @@ Proof.
       rewrite is_padd_ev_app in Hp. apply orb_false_iff in Hp as [_ Hp]. simpl in Hp. exact Hp.
     + apply andb_true_iff. split.
       * destruct (validity_in_range (hc_validity c)) eqn:Hv; [|reflexivity].
-        apply forallb_forall. intros x Hx. destruct x as [| |ph rq st v| |]; try reflexivity.
-        destruct rq as [| id | |]; try reflexivity.
-        apply in_app_or in Hx as [Hx|[Hx|Hx]].
-        -- exfalso. eapply auth_only_no_add; eauto.
-        -- discriminate.
-        -- rewrite (Hlife _ _ _ _ Hx). apply lifetime_in_range. exact Hv.
+        assert (Hadds : forall ph id st v, In (EvAgent ph (RAdd id) st v) (ev1 ++ EvGen i :: rest) ->
+                  i_life id = lifetime_of (hc_validity c)).
+        { intros ph id st v Hx. apply in_app_or in Hx as [Hx|[Hx|Hx]].
+          - exfalso. eapply auth_only_no_add; eauto.
+          - discriminate.
+          - exact (Hlife _ _ _ _ Hx). }
+        apply andb_true_iff. split.
+        -- apply forallb_forall. intros x Hx. destruct x as [| |ph rq st v| |]; try reflexivity.
+           destruct rq as [| id | |]; try reflexivity.
+           rewrite (Hadds _ _ _ _ Hx). apply lifetime_in_range. exact Hv.
+        -- apply forallb_forall. intros x Hx. destruct x as [| | |n rq|]; try reflexivity.
+           assert (Hval : c_validity rq = hc_validity c).
+           { apply in_app_or in Hx as [Hx|[Hx|Hx]].
+             - apply (proj1 (forallb_forall _ _) Hao) in Hx. discriminate.
+             - discriminate.
+             - destruct po as [p|]; [|destruct Hpo as [-> _]; destruct Hx].
+               destruct Hpo as [_ [Hcsr _]]. specialize (Hcsr _ _ Hx). unfold csr_ok in Hcsr.
+               repeat (apply andb_true_iff in Hcsr as [Hcsr ?]).
+               match goal with H : N.eqb (c_validity rq) _ = true |- _ => apply N.eqb_eq in H; exact H end. }
+           apply forallb_forall. intros y Hy. destruct y as [| |ph rq' st v| |]; try reflexivity.
+           destruct rq' as [| id | |]; try reflexivity.
+           rewrite Hval, (Hadds _ _ _ _ Hy).
+           pose proof (lifetime_in_range _ Hv) as Hl. apply andb_true_iff in Hl as [_ Hl]. exact Hl.
       * destruct r2 as [[]|k2|]; try reflexivity. cbn [obs_res result_of].
         destruct (Hok eq_refl) as [Hgk [Hkey [Hcerts Hlab]]]. rewrite Hgk.
         apply andb_true_iff. split; [apply andb_true_iff; split|].
